@@ -665,4 +665,12 @@ theorem closing_attempt {pend : Pair} {p : PState} (h : Closing pend p) (hi : p.
           exact hpend
         · intro h; exact absurd h (by decide)
 
+
+theorem snap_inflight {p : PState} (hl : p.live = true) (hd : p.dirty = true) :
+    (pstep p .snap).inflight = some (p.offset, p.md) := by
+  simp [pstep, hl, hd]
+
+theorem release_inflight (p : PState) (f : Bool) : (pstep p (.release f)).inflight = p.inflight := by
+  simp only [pstep]; split <;> rfl
+
 end Lemmas.C06
